@@ -112,9 +112,11 @@ def gen_type(rng, structs, enums, depth, profile):
             k = rng.choice(["arr", "dyn", "opt", "arr", "dyn", "opt", "struct"])
             if k == "struct" and structs:
                 return ("struct", rng.choice(structs))
-            if k in ("arr", "dyn") and rng.random() < 0.25:
-                # byte arrays (payloads, blobs): the element types an implementation is most tempted to special-case
-                el = rng.choice([("i", 8), ("u", 8), ("i", 16), ("i", 32), ("u", 16)])
+            if k in ("arr", "dyn") and rng.random() < 0.4:
+                # byte arrays (payloads, blobs) and arrays of sub-byte elements (flags, nibbles, small enums: more elements than bytes):
+                # the element types an implementation is most tempted to special-case
+                el = rng.choice([("i", 8), ("u", 8), ("i", 16), ("i", 32), ("u", 16), ("u", 1), ("u", 2), ("i", 3), ("i", 4), ("u", 7), ("u", 1)]
+                                + ([("enum", rng.choice(enums))] if enums else []))
                 return ("arr", el, rng.randint(1, 4)) if k == "arr" else ("dyn", el)
             if k == "arr":
                 return ("arr", gen_type(rng, structs, enums, depth - 1, profile), rng.choice([1, 2, 3, 4, 1, 2, 0]) if rng.random() < 0.15 else rng.randint(1, 4))
@@ -242,8 +244,11 @@ def add_can_impls(rng, desc, p=0.75, buses=None, with_period=False):
             if rng.random() < 0.4:
                 fs.append(("mux_count", rng.randint(1, 8)))
                 fs.append(("mux_signal", rng.choice(names)))
-            if not fs:
-                fs.append(("scale", rng.randint(1, 9)))
+            if not fs or rng.random() < 0.2:
+                # zero, written as an integer and as a float, is a value like any other (and is falsy in Python)
+                fs.append(("scale", rng.choice([rng.randint(1, 9), 0, 0.0, 0.5, rng.randint(1, 9)])))
+                if rng.random() < 0.3:
+                    fs.append(("offset", rng.choice([0, 0.0, -1.5, 3])))
             sigs.append({"name": nm, "fields": fs})
         if rng.random() < 0.1:
             sigs.append({"name": "nosuchfield", "fields": [("endianess", "big")]})
